@@ -39,7 +39,7 @@ Inductive crule :=
   | RAnySplit                                      (* shared_ptr<const Result>: by the box's const flag *)
   | RSelf (constcast : bool).                      (* the Boxed_Value itself *)
 Inductive direct_cond := DcNoConversions | DcBareEqual | DcNotConvertible.
-Inductive catch_kind := CatchBadAny | CatchAll.
+Inductive catch_kind := CatchBadAny | CatchAll | CatchBadCast.   (* bad_any_cast / ... / exception::bad_boxed_cast (and classes derived from it) *)
 Inductive ctp_cond := CtUndefParam | CtBoxedValue | CtBoxedNumberArith | CtBareEqual | CtArgIsFunction | CtConverts | CtAlways.
 Inductive retry_class := RcBadCast | RcArity | RcGuard | RcAnyStd | RcAnything.
 
@@ -56,7 +56,10 @@ Record rules := mkrules {
   r_dispatch_retry : list retry_class;
   r_dwc_retry : list retry_class;
   r_attr_nullcheck : bool;     (* Attribute_Access::do_call passes the object pointer through throw_if_null *)
-  r_dwc_only_converted : bool }.   (* dispatch_with_conversions calls the chosen overload only if it converted an argument *)
+  r_dwc_only_converted : bool;     (* dispatch_with_conversions calls the chosen overload only if it converted an argument *)
+  r_flt_start : nat;               (* function_less_than: first slot of get_param_types() it compares (slot 0 is the return type) *)
+  r_sentinel_mut : bool;           (* Boxed_Value::pointer_sentinel: ~Sentinel refreshes m_data_ptr from the (re-seated) shared_ptr *)
+  r_sentinel_const : bool }.       (* ... and m_const_data_ptr *)
 
 (* ------------------------------------------------------------------------------------------ *)
 (** * Types, boxes, received values *)
@@ -330,6 +333,7 @@ Definition catches (c : catch_kind) (e : eclass) : bool :=
   match c with
   | CatchAll => is_exception e
   | CatchBadAny => match e with EBadAny => true | _ => false end
+  | CatchBadCast => match e with EBadCast => true | _ => false end
   end.
 Definition on_box (R : rules) (p : param) (x : box + eclass) : dres :=
   match x with inl b' => cast_helper R p b' | inr e => DThrow e end.
@@ -378,6 +382,56 @@ Definition call_out (R : rules) (E : env) (p : param) (b : box) : cres :=
     else CErr EBadAny
   else boxed_cast R E p b.
 
+Definition form_handle_b (f : form) : bool := match f with FBV | FBVRef | FCBV | FBVCRef => true | _ => false end.
+
+(* ------------------------------------------------------------------------------------------ *)
+(** * Script variables over time: the three places Boxed_Value::Data keeps its object, and re-seating callees *)
+
+(* Data holds the object in the Any (a shared_ptr for a value the script owns) and caches two raw pointers,
+   m_data_ptr (read by get_ptr()) and m_const_data_ptr (read by get_const_ptr()). A C++ function whose parameter is
+   std::shared_ptr<T>& receives a reference to the shared_ptr inside the Any (Boxed_Value::pointer_sentinel); it may
+   re-seat it; when the call returns ~Sentinel copies the new raw pointer into the cached ones. *)
+Record place := mkplace { pl_id : ident; pl_pay : pay; pl_null : bool }.
+Definition place_eqb (a b : place) : bool :=
+  ident_eqb (pl_id a) (pl_id b) && pay_eqb (pl_pay a) (pl_pay b) && Bool.eqb (pl_null a) (pl_null b).
+Definition place_of (b : box) : place := mkplace (b_id b) (b_pay b) (b_null b).
+Definition with_place (b : box) (pl : place) : box :=
+  mkbox (b_ty b) (b_const b) (b_arith b) (b_undef b) (b_stor b) (pl_null pl) (pl_id pl) (pl_pay pl) (b_ret b).
+Record vbox := mkvbox { v_box : box (* type, flags and what the Any holds *); v_m : place (* m_data_ptr *); v_c : place (* m_const_data_ptr *) }.
+Definition vbox_of (b : box) : vbox := mkvbox b (place_of b) (place_of b).
+(* all three places name the same object *)
+Definition coherent (v : vbox) : bool := place_eqb (v_m v) (place_of (v_box v)) && place_eqb (v_c v) (place_of (v_box v)).
+
+(* the box as seen from the place the Cast_Helper_Inner of form [f] reads *)
+Definition view (R : rules) (f : form) (v : vbox) : box :=
+  match resolve 8 (r_cast R) f with
+  | Some (RVerify _ AGetPtr _ _) => with_place (v_box v) (v_m v)
+  | Some (RVerify _ AGetConstPtr _ _) => with_place (v_box v) (v_c v)
+  | _ => v_box v
+  end.
+(* one step of a history: the variable is passed to a callee taking std::shared_ptr<T>& which re-seats it to the
+   (non-null) object [i] with content [py]; the cached pointers follow as the Sentinel destructor says *)
+Definition reseat (R : rules) (v : vbox) (i : ident) (py : pay) : vbox + eclass :=
+  match inner_cast R FShRef (b_ty (v_box v)) (v_box v) with
+  | DOk _ =>
+      let pl := mkplace i py false in
+      inl (mkvbox (with_place (v_box v) pl) (if r_sentinel_mut R then pl else v_m v) (if r_sentinel_const R then pl else v_c v))
+  | DThrow e => inr e
+  end.
+Fixpoint history (R : rules) (v : vbox) (h : list (ident * pay)) : vbox + eclass :=
+  match h with
+  | [] => inl v
+  | (i, py) :: h' => match reseat R v i py with inl v' => history R v' h' | inr e => inr e end
+  end.
+(* boxed_cast<Param>(variable): a direct cast reads the place its form names; a registered conversion of a
+   script-owned value goes through the Any (Static_Caster / Dynamic_Caster cast the shared_ptr) *)
+Definition boxed_cast_v (R : rules) (E : env) (wc : bool) (p : param) (v : vbox) : cres :=
+  let b := v_box v in
+  if negb (b_undef b) && Nat.eqb (b_ty b) (p_bare p) then boxed_cast_gen R E wc p (view R (p_form p) v)
+  else if form_handle_b (p_form p) || form_beq (p_form p) FBN
+       then boxed_cast_gen R E wc p (with_place b (v_c v))    (* the box itself: its value is read later, through get_const_ptr() *)
+       else boxed_cast_gen R E wc p b.
+
 (* ------------------------------------------------------------------------------------------ *)
 (** * Functions and calls *)
 
@@ -386,7 +440,8 @@ Inductive fkind :=
   | KDyn (named : list bool)      (* Dynamic_Proxy_Function: per parameter, whether it was declared with a type *)
   | KAttr.                        (* Attribute_Access<T, Class> *)
 Record func := mkfunc {
-  f_id : nat; f_arity : Z; f_params : list param; f_kind : fkind; f_guard : option nat }.
+  f_id : nat; f_arity : Z; f_params : list param; f_kind : fkind; f_guard : option nat;
+  f_ret : tinfo }.                (* slot 0 of get_param_types(): the return type; only registration could look at it *)
 
 Inductive event := Enter (fid : nat) (rs : list recv).
 Record outcome := mkout { o_trace : list event; o_res : option eclass }.
@@ -651,12 +706,11 @@ Definition is_dyn (f : func) : bool := match f_kind f with KDyn _ => true | _ =>
 Definition has_guard (f : func) : bool := match f_guard f with Some _ => true | None => false end.
 Definition ti_bare_equal (a b : tinfo) : bool :=
   (ti_undef a && ti_undef b) || (negb (ti_undef a) && negb (ti_undef b) && Nat.eqb (ti_bare a) (ti_bare b)).
-Fixpoint flt_params (l r : list param) : bool :=
+Fixpoint flt_tis (l r : list tinfo) : bool :=
   match l, r with
-  | pl :: l', pr :: r' =>
-      let lt := p_ti pl in let rt := p_ti pr in
+  | lt :: l', rt :: r' =>
       let be := ti_bare_equal lt rt in
-      if be && Bool.eqb (ti_const lt) (ti_const rt) then flt_params l' r'
+      if be && Bool.eqb (ti_const lt) (ti_const rt) then flt_tis l' r'
       else if be && ti_const lt && negb (ti_const rt) then false
       else if be && negb (ti_const lt) then true
       else if negb (ti_undef lt) && Nat.eqb (ti_bare lt) T_BV then false
@@ -666,11 +720,13 @@ Fixpoint flt_params (l r : list param) : bool :=
       else Nat.ltb (ti_rank lt) (ti_rank rt)
   | _, _ => false
   end.
-Definition function_less_than (l r : func) : bool :=
+(* get_param_types(): the return type, then the parameters *)
+Definition f_types (f : func) : list tinfo := f_ret f :: map p_ti (f_params f).
+Definition function_less_than (R : rules) (l r : func) : bool :=
   if is_dyn l && is_dyn r then (if has_guard l then negb (has_guard r) else false)
   else if is_dyn l then false
   else if is_dyn r then true
-  else flt_params (f_params l) (f_params r).
+  else flt_tis (skipn (r_flt_start R) (f_types l)) (skipn (r_flt_start R) (f_types r)).
 
 Section Sort.
   Variable A : Type.
@@ -718,8 +774,8 @@ End Sort.
 Arguments stable_sort {A}.
 Arguments insertion_sort {A}.
 
-Definition register (fs : list func) (f : func) : list func := stable_sort function_less_than (fs ++ [f]).
-Definition register_all (fs : list func) : list func := fold_left register fs [].
+Definition register (R : rules) (fs : list func) (f : func) : list func := stable_sort (function_less_than R) (fs ++ [f]).
+Definition register_all (R : rules) (fs : list func) : list func := fold_left (register R) fs [].
 
 Definition has_arith_param (f : func) : bool := existsb (fun p => ti_arith (p_ti p)) (f_params f).
 Definition common_arity (fs : list func) : Z :=
@@ -925,6 +981,18 @@ Definition rules_ok (R : rules) : bool :=
   && forallb (fun c => match c with RcBadCast | RcArity | RcGuard => true | _ => false end) (r_dispatch_retry R)
   && forallb (fun c => match c with RcBadCast | RcArity | RcGuard => true | _ => false end) (r_dwc_retry R)
   && r_attr_nullcheck R.
+
+(* boxed_cast lets no internal exception out: the direct attempt and the down-conversion attempt swallow bad_any_cast,
+   the up-conversion attempt swallows every exception *)
+Definition flow_ok (R : rules) : bool :=
+  match r_direct_catch R, r_up_catch R, r_down_catch R with
+  | (CatchBadAny | CatchAll), CatchAll, (CatchBadAny | CatchAll) => true
+  | _, _, _ => false
+  end.
+(* function_less_than starts at the first parameter: the return type plays no part in the order of overloads *)
+Definition order_ok (R : rules) : bool := Nat.eqb (r_flt_start R) 1.
+(* after a std::shared_ptr<T>& parameter both cached pointers follow the shared_ptr *)
+Definition sentinel_ok (R : rules) : bool := r_sentinel_mut R && r_sentinel_const R.
 
 (* the conversion table does not mention the catch-all types nor the function type, and converts between
    distinct types *)
